@@ -1014,39 +1014,64 @@ func c05ToSeq(c *core.Ctx, s *Stage) {
 		return
 	}
 	h := an.Headers[0]
-	// the loop-carried slice phi
+	// the loop-carried slice: a register of the loop head, or a cell (a captured variable, the local of an inlined
+	// iterator adapter) written in the loop
 	ok := true
-	var acc *ssa.Phi
+	var cands []Quantity
 	for _, in := range h.Instrs {
-		if phi, isPhi := in.(*ssa.Phi); isPhi {
-			acc = phi
+		phi, isPhi := in.(*ssa.Phi)
+		if !isPhi {
+			break
+		}
+		if _, isSlice := phi.Type().Underlying().(*types.Slice); isSlice {
+			cands = append(cands, PhiQuantity(an, h, phi, nil))
 		}
 	}
-	if acc == nil {
-		c.Undecided("iteration", s.Name, s.Fn.Pos(), "no loop-carried slice")
+	for _, p := range an.Segs[nil] {
+		if p.To != h || p.End == nil {
+			continue
+		}
+		p.End.EachMem(func(addr, val *ir.Term) {
+			if !cellAddr(addr) {
+				return
+			}
+			for _, q := range an.Segs[h] {
+				for _, st := range q.Events(ir.KStore) {
+					if ir.Same(st.A[0], addr) && st.A[1].Op == "append" {
+						cands = append(cands, CellQuantity(an, addr))
+						return
+					}
+				}
+			}
+		})
+		break
+	}
+	if len(cands) != 1 {
+		c.Undecided("iteration", s.Name, s.Fn.Pos(), "no loop-carried slice (%d candidates)", len(cands))
 		return
 	}
-	sym := an.Start[h].Reg(acc)
+	acc := cands[0]
 	n := 0
 	for _, p := range an.Segs[h] {
 		f := factsAt(an, h, p)
+		sym := acc.StartSym(p)
 		if f.recv != nil {
 			n++
-			v := p.PhiOut[acc]
-			good := p.To == h && v != nil && v.Op == "append" && len(v.Args) == 2 && ir.Same(v.Args[0], sym) && appendsOne(p, v.Args[1], f.elem)
+			v := acc.ValueAt(p, len(p.Steps))
+			good := p.To == h && v != nil && sym != nil && v.Op == "append" && len(v.Args) == 2 && ir.Same(v.Args[0], sym) && appendsOne(p, v.Args[1], f.elem)
 			if !good {
 				ok = false
 				c.Fail("iteration", s.Name, f.recv.Pos(), "each received element must be appended exactly once to the result; found seq' = %s", short(v))
 			}
 		} else {
-			if p.Exit != ir.ExitReturn || len(p.Results) != 1 || !ir.Same(p.Results[0], sym) {
+			if p.Exit != ir.ExitReturn || len(p.Results) != 1 || sym == nil || !ir.Same(p.Results[0], sym) {
 				ok = false
 				c.Fail("iteration", s.Name, lastPos(p), "when the channel closes the collected slice must be returned; found %v", p.Results)
 			}
 		}
 	}
 	for _, p := range an.Segs[nil] {
-		v := p.PhiOut[acc]
+		v := acc.ValueAt(p, len(p.Steps))
 		empty := false
 		if v != nil && v.Op == "mkslice" {
 			if k, isK := v.Args[0].IntConst(); isK && k == 0 {
